@@ -15,7 +15,7 @@ SHAPES = {  # documented shapes, as functions of (FDim, CDim, Dim)
 
 
 def check(run, cases=None):
-    cases = cases if cases is not None else PC.gen_cases(run.tier, run.seed + 2)
+    cases = cases if cases is not None else [c for c in PC.gen_cases(run.tier, run.seed + 2) if not c.get('lite')]
     old = EC.headroom_class
     EC.headroom_class = PC.headroom_class
     try:
